@@ -586,10 +586,7 @@ fn c04(case: &Case, ctx: &Ctx, rpt: &mut Report) {
                                 rpt.bucket("skipped:path-outside-model-language(C01)");
                             }
                             else {
-                                let first_is_rooted_tree = matches!(
-                                    ast.seq.toks.first().map(|t| &t.node),
-                                    Some(Node::Tree { lead: true, trail: true })
-                                );
+                                let first_is_rooted_tree = !model.asts[0].1.rooting_first.is_empty();
                                 let rep_edge_quirk = Quirks {
                                     rooted_leading_tree_is_dotstar: false,
                                     rep_edge_tree_any_form: true,
